@@ -364,17 +364,24 @@ func (i *Interpreter) Exec(ctx context.Context, bs match.Bindings, props core.St
 	}()
 
 	v, err := RunProgram(o, p)
+
+	// Taking over the result, or the text of an exception, can
+	// run code of the script (a getter, toString).  The goroutine
+	// above stays on duty until that is done: cancel() makes it
+	// interrupt the runtime, and a script that has not used up
+	// its time would be reported as timed out.
+	var x interface{}
+	if err == nil {
+		x, err = export(v)
+	} else if _, is := err.(*goja.InterruptedError); !is {
+		err = plainError(err)
+	}
 	cancel()
 
 	if err != nil {
 		if _, is := err.(*goja.InterruptedError); is {
 			return nil, Interrupted
 		}
-		return nil, plainError(err)
-	}
-
-	x, err := export(v)
-	if err != nil {
 		return nil, err
 	}
 
